@@ -4,17 +4,17 @@ import json, sys
 
 CLAIMED = {
  # id: (technique, level text, level_note, design_ref)
- "C11": ("model-based stateful property testing (proptest-driven op histories vs Vec reference model) + bounded exhaustive enumeration of short histories",
+ "C11": ("model-based stateful property testing (proptest-driven op histories vs Vec reference model) + bounded exhaustive enumeration of short histories; thorough adds a coverage-guided libFuzzer campaign over the same generator",
          "Exploration: random operation histories (adversarial/colliding 32-bit hashes, threshold-crossing bursts) and an exhaustively enumerated space of short histories, each step compared in full against a Vec<(K,V)> model. Held-on-everything-explored, not a proof.",
          "Trusts the Vec reference model in harness/src/props/c11.rs; stable toolchain (index threshold 16).", "DESIGN.md §5 C11"),
 }
 CLAIMED["C01"] = ("differential property testing against CPython 3.11 (type-directed program generator, proptest-driven, shrinking)",
     "Exploration: generated shared-core programs run at module level and inside def, compared with CPython (transcript, outcome class, final globals). Not a proof; constructs where Starlark deliberately differs from Python are outside the generator.",
     "Trusts CPython 3.11 as reference semantics and the harness's canonical value encoding on both sides.", "DESIGN.md §5 C01")
-CLAIMED["C05"] = ("generated-input validity checking (token soups, lexer corner cases, mutated corpus, raw bytes, nesting families) with a span well-formedness predicate and a dialect-monotonicity metamorphic relation; worker-process isolation for crashes",
+CLAIMED["C05"] = ("generated-input validity checking (token soups, lexer corner cases, mutated corpus, raw bytes, nesting families) with a span well-formedness predicate and a dialect-monotonicity metamorphic relation; worker-process isolation for crashes; string literals assembled from corner-case pieces, file-level prefixes/suffixes (BOM, shebang, control characters); thorough adds a coverage-guided libFuzzer campaign over the same generator",
     "Exploration: every generated text x dialect pair must parse to Ok/Err without crash; error and AST spans are checked by an independent visitor; wider dialects must accept the same tree.",
     "Trusts the harness's AST visitor (astx.rs) and the re-lex check for literal spans; 16 MiB worker stack.", "DESIGN.md §5 C05")
-CLAIMED["C09"] = ("algebraic-law property testing over representation classes (proptest-generated value sets; all ordered pairs/triples) + exhaustive numeric boundary grid",
+CLAIMED["C09"] = ("algebraic-law property testing over representation classes (proptest-generated value sets; all ordered pairs/triples) + exhaustive numeric boundary grid; thorough adds a libFuzzer campaign",
     "Exploration: reflexive/symmetric/transitive ==, hash/dict/set coherence (Rust-side hashes and in-language lookups below and above the index threshold), ordering laws and sort stability over generated value sets; every ordered pair of the numeric grid is enumerated each run.",
     "Laws are taken from the property text; NaN == NaN per the Starlark spec quoted in float.rs.", "DESIGN.md §5 C09")
 CLAIMED["C10"] = ("differential testing against CPython integers (exhaustive boundary-grid pairs x operators x {folded, run time}) + random 256-bit operands; i128/BigInt range oracle for host conversions",
@@ -23,31 +23,31 @@ CLAIMED["C10"] = ("differential testing against CPython integers (exhaustive bou
 CLAIMED["C12"] = ("exhaustive catalogue enumeration (kind x construct x mutation x alias x exit) against an explicit lock model, with proptest re-sampling for replay",
     "Exploration, exhaustive over the depth<=3 catalogue: every attempt inside an iteration must fail and leave the container intact; the first mutation after any exit must succeed.",
     "The model is the property text; which builtins hold the lock during callbacks was read from the stdlib sources.", "DESIGN.md §5 C12")
-CLAIMED["C08"] = ("differential testing against CPython's argument binding over an enumerated signature x call space, across call paths (direct, via variable, frozen+loaded, partial, host eval_function, native ParametersSpec, can_fill_with_args)",
+CLAIMED["C08"] = ("differential testing against CPython's argument binding over an enumerated signature x call space, across call paths (direct, via variable, frozen+loaded, partial, host eval_function, native ParametersSpec, natives declared through #[starlark_module], can_fill_with_args)",
     "Exploration with exhaustive enumeration of signatures (<= 4 named parameters quick, 5 thorough) and a strided (quick) or complete (thorough) call list; every call path must produce the binding CPython produces or fail when CPython fails.",
     "Trusts CPython's binder for the shared def/call syntax; Starlark-only syntax restrictions (one * and one **, order) are respected by the generator.", "DESIGN.md §5 C08")
-CLAIMED["C16"] = ("exhaustive enumeration of type expressions (depth<=1 complete, depth 2 sampled) x value catalogue against a reference denotation from docs/types.md, plus cross-path agreement (isinstance / annotations / eval_type / host TypeCompiled, frozen and unfrozen); random depth-3 types",
+CLAIMED["C16"] = ("exhaustive enumeration of type expressions (depth<=1 complete, depth 2 sampled) x value catalogue against a reference denotation from docs/types.md, plus cross-path agreement (isinstance / annotations / eval_type / host TypeCompiled, frozen and unfrozen); unions of parametrised containers and atom x depth-1 unions enumerated; random depth-3 types; thorough adds a libFuzzer campaign",
     "Exploration, exhaustive for the enumerated sub-space: every check path must give the documented answer (where the doc settles it) and all paths must agree before and after freezing.",
     "Reference denotation is hand-written from docs/types.md; undocumented combinations are only checked for path agreement.", "DESIGN.md §5 C16")
-CLAIMED["C02"] = ("metamorphic property testing: generated programs vs opacified variants (constants/callees hidden behind an opaque native) x {module level, def in defining module, frozen+loaded, host call}; exhaustive marker subsets for hand-written optimiser targets",
+CLAIMED["C02"] = ("metamorphic property testing: generated programs vs opacified variants (constants/callees hidden behind an opaque native) x {module level, def in defining module, frozen+loaded, host call}; exhaustive marker subsets for hand-written optimiser targets; enumerated inlining table (signature x optimiser-shaped body x call shape, visible vs hidden callee) and caller-context table; closures crossing frozen modules; thorough adds a coverage-guided libFuzzer campaign over the same generator",
     "Exploration: all variants of a program must give identical transcript, outcome and error message; the unfrozen/frozen and hidden/visible configurations compile genuinely different code.",
     "Trusts that opaque() hides values from the optimiser and that def-wrapping is meaning preserving (cross-checked by C01 against CPython).", "DESIGN.md §5 C02")
-CLAIMED["C03"] = ("metamorphic property testing over GC schedules (forced collections at evaluator safepoints via hook H1, freed arenas poisoned via hook H2), generated programs with cyclic/aliased/closure-held/embedder-set values, multi-call histories on one module",
+CLAIMED["C03"] = ("metamorphic property testing over GC schedules (forced collections at evaluator safepoints via hook H1, freed arenas poisoned via hook H2), generated programs with cyclic/aliased/closure-held/embedder-set values, multi-call histories on one module, generated heap shapes (cycles through every container kind, root order, dropped roots); thorough adds a coverage-guided libFuzzer campaign over the same generator",
     "Exploration: transcript, outcomes, final globals and extra_value must be identical with GC disabled, default, every k-th safepoint (k=1,2,3,7) and a generated safepoint mask; a dangling reference reads poison and crashes the isolated worker.",
     "Relies on cfg(starlark_verif) hooks H1/H2; only safepoints the evaluator itself offers are used.", "DESIGN.md §5 C03")
-CLAIMED["C04"] = ("property testing with generated exporting modules: round-trip oracle (host encoding, read-only catalogue before/after freeze through frozen and local observers) and a mutation catalogue attempted through every path to every reachable container from 1..3 importers",
+CLAIMED["C04"] = ("property testing with generated exporting modules: round-trip oracle (host encoding, read-only catalogue before/after freeze through frozen and local observers) and a mutation catalogue attempted through every path to every reachable container from 1..3 importers; hashable object leaves (functions, closures, enum values) as keys/elements with self-lookup and host get_hashed before/after freeze; thorough adds a libFuzzer campaign",
     "Exploration: every generated export must look the same after freezing (host API and in-language read-only catalogue) and every mutation through any path/accessor/closure/default argument must fail and leave the value unchanged.",
     "The read-only and mutation catalogues are hand-written from the language operations listed in the property.", "DESIGN.md §5 C04")
-CLAIMED["C07"] = ("generated-input validity checking over histories: every builtin/method (discovered at run time) x hostile argument tuples, ill-typed operators/statements, failures at generated depths, constant-substituted programs; located-error predicate and recovery probe after every error; worker-process isolation",
+CLAIMED["C07"] = ("generated-input validity checking over histories: every builtin/method (discovered at run time) x hostile argument tuples, ill-typed operators/statements, failures at generated depths, constant-substituted programs; located-error predicate and recovery probe after every error; worker-process isolation; frozen (loaded) and deeply nested hostile values; enumerated callable x value part with per-call crash attribution; thorough adds a libFuzzer campaign",
     "Exploration: every evaluation must end in Ok/Err (no panic/abort/Internal), errors must carry valid spans and resolvable call stacks, and after each error the same evaluator/module must behave like a fresh one on a probe program.",
     "Repeat/shift counts are bounded; resource-limit errors are accepted outcomes.", "DESIGN.md §5 C07")
-CLAIMED["C15"] = ("model-based property testing: exhaustive (shape x limit x depth-around-threshold) enumeration against a frame-count model, and proptest-generated tick workloads with statically known tick counts against budget/cancellation models",
+CLAIMED["C15"] = ("model-based property testing: exhaustive (shape x limit x depth-around-threshold) enumeration against a frame-count model, and proptest-generated tick workloads with statically known tick counts against budget/cancellation models; rounds on a reused evaluator (limits must still be honoured after an earlier limit error)",
     "Exploration, exhaustive around every configured call-depth limit for 11 recursion shapes (unfrozen and frozen): success iff frames <= limit, StackOverflow otherwise, never a crash, evaluator reusable. Tick budgets and cancellation are checked against an exact count model with the documented 1000-tick check interval.",
     "Frame constants calibrated on the unchanged tree; tick model excludes native-callback and known-method calls (documented as not counted).", "DESIGN.md §5 C15")
-CLAIMED["C14"] = ("differential testing of the implementation against itself across fresh processes with different memory layouts (ASLR on/off, allocation noise, environment size, evaluating thread, per-process hash seeds) and repeated in-process runs; byte-equality oracle on the full observable output incl. errors, lint and static-typecheck output",
+CLAIMED["C14"] = ("differential testing of the implementation against itself across fresh processes with different memory layouts (ASLR on/off, allocation noise, environment size, evaluating thread, per-process hash seeds) and repeated in-process runs; byte-equality oracle on the full observable output incl. errors, lint and static-typecheck output; error zoo (ill-typed calls of every builtin with hostile arguments) and diagnostic-rich statement groups in every batch",
     "Exploration: batches of generated programs (with determinism probes and failing statements that produce suggestions and call stacks) must produce byte-identical observations in four differently laid-out processes and on repetition.",
     "Layout differences are induced, not enumerated; a dependence that needs a specific address pattern can stay hidden.", "DESIGN.md §5 C14")
-CLAIMED["C13"] = ("stateful property testing of drop-order histories over an object graph (frozen modules, load chains, owned handles, modules built from handles, temporary Globals), invariant checked after every step, freed arenas poisoned (hook H2), drops also on other threads",
+CLAIMED["C13"] = ("stateful property testing of drop-order histories over an object graph (frozen modules, load chains, owned handles, modules built from handles, temporary Globals), invariant checked after every step, freed arenas poisoned (hook H2), drops also on other threads; forwarding heaps (add_to_frozen_heap), Globals built from handles, modules built through import_public_symbols; thorough adds a libFuzzer campaign",
     "Exploration: after every step every value still reachable from a live root must encode exactly as at creation (values read through add_to_heap and by_ref, functions called); a premature release reads 0x5A poison and crashes the isolated worker or changes the encoding.",
     "Relies on hook H2; only library-owned reference operations are generated (documented caller obligations are excluded).", "DESIGN.md §5 C13")
 CLAIMED["C06"] = ("differential testing of the parse tree against CPython's ast on the shared grammar (grammar-directed generation without redundant parentheses, exhaustive operator-pair table, token mutations for acceptance) and a print/parse round-trip with fixed-point check on generated, corpus and mutated modules",
@@ -59,10 +59,10 @@ CLAIMED["C17"] = ("property testing of the static checker: no-crash and in-proce
 CLAIMED["C18"] = ("metamorphic property testing over instrumentation configurations (each ProfileMode, no-op statement hook, debug adapter with generated breakpoint subsets / conditions / stepping patterns) with a channel-driven controller thread; model of stops derived from marker statements",
     "Exploration: every configuration must leave transcript and outcome unchanged; stops on breakpointed marker lines inside defs must match marker executions one-to-one in order, and variables shown at a stop must equal the values the marker records.",
     "Only scalar locals are compared with the debugger's rendering; a silent evaluation thread (30 s) is inconclusive.", "DESIGN.md §5 C18")
-CLAIMED["C19"] = ("property testing of an in-memory language server over request histories: validity predicate for every returned range under UTF-16, and a differential resolution oracle (the document is executed with scope-tagged bindings and probes; go-to-definition must land on a binding of the scope the program actually read); independent line/character recomputation for error spans",
+CLAIMED["C19"] = ("property testing of an in-memory language server over request histories: validity predicate for every returned range under UTF-16, and a differential resolution oracle (the document is executed with scope-tagged bindings and probes; go-to-definition must land on a binding of the scope the program actually read); independent line/character recomputation for error spans, for every AST node span and for run-time errors with call stacks; loads across files; completion and hover answers range-checked",
     "Exploration: every request answered, server stops after exit, every range valid for its document, definition agrees with the running program's scoping for every use site of generated shadowing-heavy documents (with non-ASCII text, CRLF), across didOpen/didChange/didClose histories.",
     "The generator's scope/tag bookkeeping and the harness LspContext (file map) are trusted; unanswered requests are inconclusive.", "DESIGN.md §5 C19")
-CLAIMED["C20"] = ("stress-based property testing with a sequential-equivalence oracle: generated per-thread workloads over shared frozen modules run in fresh processes under several thread schedules (barrier / staggered / over-subscribed / concurrent build), compared with each workload run alone; arenas poisoned on drop (hook H2)",
+CLAIMED["C20"] = ("stress-based property testing with a sequential-equivalence oracle: generated per-thread workloads over shared frozen modules run in fresh processes under several thread schedules (barrier / staggered / over-subscribed / concurrent build), compared with each workload run alone; arenas poisoned on drop (hook H2); drop storm on heaps sharing arena chunks released simultaneously by persistent dropper threads",
     "Exploration: each thread's transcript must equal the transcript of the same workload run alone; any crash of a concurrent child is a violation. The OS schedule is perturbed, not controlled, so this is the weakest claim of the set.",
     "Does not own the scheduler (loom/shuttle would need the atomics in the code under test replaced); first-use races are exercised by fresh processes.", "DESIGN.md §5 C20, §10")
 NOT_YET = {}
